@@ -545,6 +545,11 @@ func findObject(pd *container, path string, options *ApplyOptions) (container, s
 		return nil, ""
 	}
 
+	if split[0] != "" {
+		// RFC 6901: a non-empty pointer starts with '/'
+		return nil, ""
+	}
+
 	parts := split[1 : len(split)-1]
 
 	key := split[len(split)-1]
@@ -839,7 +844,8 @@ func ensurePathExists(pd *container, path string, options *ApplyOptions) error {
 
 	split := strings.Split(path, "/")
 
-	if len(split) < 2 {
+	if len(split) < 2 || split[0] != "" {
+		// nothing to create; a pointer without the leading '/' is rejected by findObject
 		return nil
 	}
 
